@@ -124,7 +124,11 @@ def build_dom(t):
         for i, a in enumerate(n["attrs"]):
             ans, local, val = dec(a[0]), dec(a[1]), dec(a[2])
             if ans is None:
-                el.setAttribute(local, val)
+                # the path html5lib's dom builder uses when it merges attributes (AttrList.__setitem__): unlike
+                # setAttribute it lets 'xml:lang' and 'lang' (same part after the colon) coexist on one element
+                at = doc.createAttribute(local)
+                at.value = val
+                el.attributes[local] = at
             else:
                 el.setAttributeNS(ans, "p%d:%s" % (i, local), val)
         return el
@@ -168,7 +172,8 @@ R_VOID = ["area", "base", "br", "col", "embed", "hr", "img", "input", "link", "m
 R_TEXT = ["x", " ", "  ", "\n", "\t\n\x0c\r ", " x", "x ", " x ", "a b", "a  b ", "\x0b", "\xa0", " \xa0 ", " ", "\x00",
           "\ud800", "\U0001f600", "é", "<", "&amp;", "]]>", " \x0bx\x0b ", "\r", "\x0c"]
 R_ATTR = [(None, "id"), (None, "class"), (None, "xlink:href"), (XLINK, "href"), (XML, "lang"), (XMLNS, "xmlns"),
-          (XMLNS, "xlink"), (None, "a:b"), (SVG, "odd"), (XLINK, "bogus"), (None, "é"), (None, "xml:lang"), (XML, "base")]
+          (XMLNS, "xlink"), (None, "a:b"), (SVG, "odd"), (XLINK, "bogus"), (None, "é"), (None, "xml:lang"), (XML, "base"), (None, "lang"), (None, "href"), (None, "b:b"),
+          (None, "c:b")]
 R_VAL = ["", "x", " ", "a b", "\n", "é", "\x00", "<>&\"'"]
 
 
